@@ -11,6 +11,7 @@
 //   reread n<j>              characters() of an earlier result, and where it lives now
 //   rereadall                the same for every result so far, one line each
 #include <ipr/impl>
+#include <type_traits>
 #include <cstdio>
 #include <cstdint>
 #include <cstring>
@@ -237,12 +238,19 @@ int main()
             auto wa = parse_hex(b);
             auto wb = parse_hex(c);
             Pool& sp = pool_of(k);
-            auto& map = (Buckets&) sp;
-            const ipr::util::hash_code h { std::hash<word_view>{ }(word_view(wb.data(), wb.size())) };
-            const auto fresh = sp.strings.make_string(wa.data(), static_cast<std::ptrdiff_t>(wa.size()));
-            auto& bucket = map[h];
-            bucket.emplace_front(word_view(fresh->data, fresh->length));
-            out = describe(k, bucket.front(), true);
+            if constexpr (std::is_base_of_v<Buckets, Pool>) {
+               auto& map = (Buckets&) sp;
+               const ipr::util::hash_code h { std::hash<word_view>{ }(word_view(wb.data(), wb.size())) };
+               const auto fresh = sp.strings.make_string(wa.data(), static_cast<std::ptrdiff_t>(wa.size()));
+               auto& bucket = map[h];
+               bucket.emplace_front(word_view(fresh->data, fresh->length));
+               out = describe(k, bucket.front(), true);
+            }
+            else {
+               // the pool is no longer the map of buckets this white-box step knows: no neighbour can be planted; the word is interned
+               // the ordinary way (equal-hash neighbours then come from the computed equal-hash words only)
+               out = describe(k, lexicon[k]->get_string(word_view(wa.data(), wa.size())), true) + "\n#inject-unavailable";
+            }
          }
          else if (op == "reread") {
             std::size_t j = std::stoul(a.substr(1));
